@@ -298,6 +298,19 @@ func corpus() []*Scenario {
 	addWS("default IQ reply, then close", true, sv, peer("elem", true, false, "iq"), peer("close", false, false, ""))
 	add("real deadline", true, sv, Actor{Kind: "setdeadline"}, cl, Actor{Kind: "timer", For: 1}, Actor{Kind: "probe"})
 	add("real deadline, no deadlines on the transport", false, sv, Actor{Kind: "setdeadline"}, Actor{Kind: "timer", For: 1}, peer("elem", false, false, ""))
+	// handler errors that wrap io.EOF are handler errors, not the peer's close
+	for _, e := range []string{"wrapeof", "eofcause"} {
+		add("handler error that wraps io.EOF ("+e+")", true, sv, Actor{Kind: "peer", Ev: &Pev{Type: "elem", Fail: true, Err: e}}, Actor{Kind: "probe"}, Actor{Kind: "send"})
+		add("handler replies, then fails with an error that wraps io.EOF ("+e+")", false, sv, Actor{Kind: "peer", Ev: &Pev{Type: "elem", Reply: true, Fail: true, Err: e}}, cl)
+	}
+	// SetCloseDeadline while Serve is running must not disturb it: the peer goes on, then closes
+	for _, dl := range []bool{true, false} {
+		add("deadline far away set while Serve runs; the peer sends two more elements and closes", dl, sv, peer("elem", false, false, ""),
+			Actor{Kind: "setdeadline"}, peer("elem", true, false, ""), peer("elem", false, false, ""), peer("close", false, false, ""), Actor{Kind: "probe"})
+		add("two far deadlines set while Serve runs; the peer sends an IQ and closes", dl, sv, Actor{Kind: "setdeadline"}, peer("elem", false, false, ""),
+			Actor{Kind: "setdeadline"}, peer("elem", true, false, "iq"), peer("close", false, false, ""))
+		add("zero-time deadline set while Serve runs; the peer goes on", dl, sv, Actor{Kind: "setdeadline", Zero: true}, peer("elem", false, false, ""), peer("elem", false, false, ""), peer("close", false, false, ""))
+	}
 	// the deadline is state that every call replaces
 	sd, far, past, zero := Actor{Kind: "setdeadline"}, Actor{Kind: "setdeadline"}, Actor{Kind: "setdeadline", Past: true}, Actor{Kind: "setdeadline", Zero: true}
 	for _, dl := range []bool{true, false} {
@@ -344,6 +357,8 @@ func exhaustiveSets() []*Scenario {
 	add(true, sv, Actor{Kind: "setdeadline", Past: true}, Actor{Kind: "setdeadline"}, peer("close", false, false, ""))
 	add(false, sv, Actor{Kind: "setdeadline", Past: true}, Actor{Kind: "setdeadline", Zero: true}, peer("elem", false, false, ""))
 	add(true, sv, Actor{Kind: "setdeadline"}, Actor{Kind: "setdeadline", Past: true}, peer("elem", false, false, ""))
+	add(true, sv, Actor{Kind: "setdeadline"}, peer("elem", false, false, ""), peer("close", false, false, ""))
+	add(false, sv, Actor{Kind: "peer", Ev: &Pev{Type: "elem", Fail: true, Err: "wrapeof"}}, cl)
 	addWS := func(dl bool, as ...Actor) {
 		out = append(out, &Scenario{Mode: "forced", DLSup: dl, WS: true, Actors: as, Note: "enumerated, websocket"})
 	}
@@ -378,7 +393,11 @@ func randomScenario(r *hx.Rand) *Scenario {
 			if reply && !fail && r.Chance(1, 3) {
 				form = "iq"
 			}
-			as = append(as, peer("elem", reply, fail, form))
+			a := peer("elem", reply, fail, form)
+			if fail {
+				a.Ev.Err = []string{"", "", "wrapeof", "eofcause"}[r.Intn(4)]
+			}
+			as = append(as, a)
 		}
 		if r.Chance(3, 4) {
 			switch r.Intn(4) {
@@ -635,7 +654,7 @@ func main() {
 		x.wsProbes()
 		x.stallProbes()
 	}
-	res.Rule = "forced schedules over the yield points of session.go: a built-in corpus run in order; every schedule (up to a cap) of 24 small actor sets (5 of them on WebSocket-subprotocol sessions); " +
+	res.Rule = "forced schedules over the yield points of session.go: a built-in corpus run in order; every schedule (up to a cap) of 29 small actor sets (5 of them on WebSocket-subprotocol sessions); " +
 		"random sets of 1-12 actors, a quarter of them on sessions negotiated by websocket.NewSession (Close x0-2, transmitters of every family and API, Serve with a peer script of elements/close/stream error/bad input, " +
 		"SetCloseDeadline called 0-3 times with a later time / a time already passed / the zero time, token-reader probe) under random schedules; " +
 		"real-timer scenarios (one call with a short real deadline that passes during the scenario, while other calls extend, shorten or clear it and the peer acts in between); free-running concurrent scenarios (oracle only); " +
